@@ -59,6 +59,21 @@ def _const_offset(k):
     return None
 
 
+def _mentions(t, v):
+    """does term t contain the constant v"""
+    seen = set()
+    stack = [t]
+    while stack:
+        e = stack.pop()
+        if e.get_id() in seen:
+            continue
+        seen.add(e.get_id())
+        if e.eq(v):
+            return True
+        stack.extend(e.children())
+    return False
+
+
 def _key(e):
     return e.get_id()
 
@@ -169,6 +184,10 @@ def instances(formulas, opts=None):
         args = [e.arg(i) for i in range(2, e.num_args())]
         zero = z3.IntVal(0) if z3.is_int(e) else RV(0)
         out.append(z3.Implies(hi <= lo, e == zero))
+        if not _mentions(sd.body, sd.var):
+            # constant summand: sum_{t=lo}^{hi-1} c = c (hi - lo)
+            cnt = (hi - lo) if z3.is_int(e) else z3.ToReal(hi - lo)
+            out.append(z3.Implies(hi >= lo, e == sd.body_at(lo, args) * cnt))
         if opts.get("unfold", True):
             last = sd.fn(lo, z3.simplify(hi - 1), *args)
             out.append(z3.Implies(hi > lo, e == last + sd.body_at(z3.simplify(hi - 1), args)))
